@@ -171,16 +171,20 @@ def run(ctx):
                               replay=dict(cfg=cfg.as_dict(), queries=traces[i][0]))
 
     # ---- binding: long solver-shaped runs, real warm-up constant ------------------------------------
-    n_small, n_big = (200, 1200) if quick else (1000, 30000)
+    n_small, n_big = (200, 2400) if quick else (1000, 30000)
     runs = []
     for cs in (0, 1, 45, None):
         runs.append(dict(cache_size=cs))
     runs += [dict(cache_size=2, levy="space-time"), dict(cache_size=45, levy="foster", size=(2, 2)),
              dict(cache_size=45, tol=1e-2, retries=True), dict(cache_size=3, tol=1e-3),
              dict(cache_size=45, dt_hint=True), dict(cache_size=0, dt_hint=True)]
+    # histories in which many consecutive small steps fall inside ONE bottom piece of the pre-shaped tree: a dt hint
+    # looser than the steps taken; no hint and a step size that drops sharply after a long stretch of larger steps
+    runs += [dict(cache_size=45, shape="loose_hint"), dict(cache_size=45, shape="two_rate"),
+             dict(cache_size=2, shape="two_rate", levy="space-time"), dict(cache_size=None, shape="loose_hint")]
     dy = [dict(cache_size=45, tol=2.0 ** -14, halfway=True), dict(cache_size=1, tol=1e-4, halfway=True, retries=True)]
     if quick:
-        runs = [runs[0], runs[2], runs[5], runs[6], runs[9]]
+        runs = [runs[0], runs[2], runs[5], runs[6], runs[9], runs[10], runs[11]]
         dy = dy[:1]
     for kw in runs + dy:
         rs = P.long_run(n_small, **kw)
